@@ -97,6 +97,23 @@ def sc_children(rng, cid, store, deletes=True):
     return dict(id=cid, conf=conf, steps=steps, scenario="children-by-digest", threads=threads)
 
 
+def sc_readonly_first_load(rng, cid, store):
+    """a read-only directory store: the first requests after every start load the index of a repository while others read its blobs"""
+    conf = mkconf(store="dir", withsubj=False)
+    steps = c12.base_steps(("a",))
+    ro = dict(conf, ro=True)
+    for _ in range(8):
+        steps.append(dict(kind="restart", impl=dict(op="restart", conf=ro), model="(skip)"))
+        threads = [[manifest_get("a", "v1"), tag_list("a")], [blob_get("a", dg("sha256", b"layer-shared")), blob_get("a", dg("sha256", b"{}"), head=True)],
+                   [referrers("a", dg("sha256", b"nothing"), None), blob_get("a", dg("sha256", b"layer-shared"), head=True)]]
+        rng.shuffle(threads)
+        steps.append(dict(kind="par", impl=dict(op="par", par=[[x["impl"] for x in th] for th in threads]), model="(skip)"))
+    steps.append(special("close"))
+    for st in steps:
+        st["model"] = "(skip)"
+    return dict(id=cid, conf=conf, steps=steps, scenario="read-only-first-load")
+
+
 def sc_tag_churn(rng, cid, store):
     """one tag pushed by one client and deleted by another, over and over, with a logger that formats every record"""
     conf = mkconf(store=store, withsubj=False, debuglog=True)
@@ -124,7 +141,7 @@ def run(ctx):
         for i in range(18):
             cases.append(c11.gen_case(rng, len(cases) + 1, ("mem", "dir", "memdir")[i % 3]))
         for store in ("mem", "dir"):
-            for f, n in ((c12.sc_waiter, 2), (c12.sc_close_ticker, 1), (c12.sc_uploads, 3), (c12.sc_mixed, 4), (sc_evict_stalled, 6 if store == "dir" else 2), (sc_children, 3), (sc_tag_churn, 2)):
+            for f, n in ((c12.sc_waiter, 2), (c12.sc_close_ticker, 1), (c12.sc_uploads, 3), (c12.sc_mixed, 4), (sc_evict_stalled, 6 if store == "dir" else 2), (sc_children, 3), (sc_tag_churn, 2), (sc_readonly_first_load, 2 if store == "dir" else 0)):
                 for _ in range(n):
                     cases.append(f(rng, len(cases) + 1, store))
     for j, c in enumerate(cases):
